@@ -10,7 +10,7 @@ import vlib, refs, pairs
 _UH = {}
 SIZES = {  # (quick, thorough) number of pairs per stratum
     "uniform": (120, 2500), "threshold": (260, 6000), "grey": (80, 3000), "named": (60, 2000),
-    "nearbg": (80, 2000), "hair": (60, 1200), "witness": (900, 20000), "witness_neargrey": (900, 20000), "witness_translucent": (900, 20000), "spell": (130, 3000), "isolum": (150, 3000), "hairline": (70, 1500), "corner": (120, 2500), "zeroone": (40, 400), "edge": (120, 2500), "ultrahair": (90, 1500), "neargrey": (90, 1500), "informal": (60, 1000), "razor": (150, 3000), "extreme": (60, 1500), "witness_hsl": (900, 20000),
+    "nearbg": (80, 2000), "hair": (60, 1200), "witness": (900, 20000), "witness_neargrey": (900, 20000), "witness_translucent": (900, 20000), "spell": (130, 3000), "isolum": (150, 3000), "hairline": (70, 1500), "corner": (120, 2500), "zeroone": (40, 400), "edge": (120, 2500), "ultrahair": (90, 1500), "neargrey": (90, 1500), "informal": (60, 1000), "razor": (150, 3000), "extreme": (60, 1500), "hslbg": (90, 2000), "witness_edge": (900, 20000), "witness_hsl": (900, 20000),
 }
 
 
@@ -30,11 +30,11 @@ def strata(pid, t, rnd):
     def spelled(c, kind):
         return pairs.spell(c, kind, rnd)
 
-    w = {"C01": dict(uniform=1, threshold=1, grey=1, named=1, nearbg=.5, hair=.5, spell=1, isolum=.3, hairline=1, corner=.5, zeroone=1, edge=.5, ultrahair=1, neargrey=.5, informal=.5, razor=1, extreme=.5),
-         "C02": dict(uniform=.7, threshold=1, grey=.7, named=.5, nearbg=.7, hair=1.5, spell=.6, isolum=4, hairline=1, corner=3, zeroone=1, ultrahair=.5, neargrey=1.5, informal=1.5, razor=1.4, extreme=.5),
+    w = {"C01": dict(uniform=1, threshold=1, grey=1, named=1, nearbg=.5, hair=.5, spell=1, isolum=.3, hairline=1, corner=.5, zeroone=1, edge=.5, ultrahair=1, neargrey=.5, informal=.5, razor=1, extreme=.5, hslbg=1),
+         "C02": dict(uniform=.7, threshold=1, grey=.7, named=.5, nearbg=.7, hair=1.5, spell=.6, isolum=4, hairline=1, corner=3, zeroone=1, ultrahair=.5, neargrey=1.5, informal=1.5, razor=1.4, extreme=.5, hslbg=1),
          "C16": dict(uniform=.5, threshold=1.2, grey=.5, named=.3, nearbg=2.0, hair=.3, spell=.2, isolum=.5, edge=2, corner=.3),
          "C04": dict(uniform=1, threshold=1, grey=.5, named=.3, nearbg=1.5, hair=.2, spell=.3, isolum=.5),
-         "C03": dict(witness=1, witness_neargrey=.25, witness_translucent=.2, witness_hsl=.25, extreme=3)}[pid]
+         "C03": dict(witness=1, witness_neargrey=.25, witness_translucent=.2, witness_hsl=.25, extreme=3, witness_edge=.6)}[pid]
     for name, scale in w.items():
         n = n_of(name, t, scale)
         for k in range(n):
@@ -144,12 +144,35 @@ def strata(pid, t, rnd):
             elif name == "extreme":
                 a, b, vr_, lg = pairs.extreme_only(rnd)
                 add(a, b, lg, witness=True, runs=[(m, v2) for v2 in (vr_, not vr_) for m in (0, 1, 2)])
+            elif name == "witness_edge":
+                # text with a channel at (or within 5 levels of) the gamut boundary, a few per cent below the requirement: the
+                # lightness line of such a colour runs along the clipped boundary
+                vr = bool(rnd.getrandbits(1))
+                tq = pairs.REQ[(large, vr)]
+                a, b = pairs.edge_near_threshold(rnd, tq, tries=4000)
+                if k % 2:
+                    a = tuple(min(255, max(0, v + (rnd.choice([-5, -3, -1, 0]) if v == 255 else rnd.choice([0, 1, 3, 5]) if v == 0 else 0))) for v in a)
+                add(a, b, large, witness=True, runs=[(m, v2) for v2 in (vr, not vr) for m in (0, 1, 2)])
             elif name == "witness_hsl":
                 vr = bool(rnd.getrandbits(1))
                 tq = pairs.REQ[(large, vr)]
                 a, b = pairs.near_threshold(rnd, tq, (0.0, 0.07))
                 txt = pairs.spell(a, "hslfn", rnd)          # whole degrees and percentages: denotes a colour next to a
                 add(txt, b, large, "hslfn", witness=True, runs=[(m, v2) for v2 in (True, False) for m in (0, 1, 2)])
+            elif name == "hslbg":
+                # the BACKGROUND written as an exact hsl() value with its hue turns away (negative / beyond 360): near-black and
+                # near-grey backgrounds (saturation / lightness below 1 %), and ordinary ones just off a requirement
+                tq = rnd.choice(REQS)
+                if k % 3 == 0:
+                    g = rnd.choice([1, 2, 3, 5])
+                    b = rnd.choice([(g, g, g), (g, g + 1, g), (g + 1, g, g)])
+                    a = rnd.choice([(0, 0, 0), (255, 255, 255), (g + 2, g + 2, g + 2), pairs.rand_colour(rnd)])
+                elif k % 3 == 1:
+                    b = pairs.neargrey(rnd)
+                    a, _b = pairs.near_threshold(rnd, tq, (-0.05, 0.1))
+                else:
+                    a, b = pairs.near_threshold(rnd, tq, (-0.04, 0.04))
+                add(a if k % 2 else spelled(a, "hslodd"), spelled(b, "hslodd"), large, "tuple" if k % 2 else "hslodd")
             elif name == "edge":
                 a, b = pairs.edge_near_threshold(rnd, rnd.choice(REQS))
                 add(a, b, large)
@@ -173,7 +196,7 @@ def strata(pid, t, rnd):
                     a, b = pairs.rand_colour(rnd), pairs.rand_colour(rnd)
                 if kind == "hex3":
                     a = tuple((v // 17) * 17 for v in a)
-                bgk = rnd.choice(["tuple", "hex6", "rgbfn", "named", "rgbafn"])
+                bgk = rnd.choice(["tuple", "hex6", "rgbfn", "named", "rgbafn", "hslodd", "hslfn", "rgbpct"])
                 add(spelled(a, kind), spelled(b, bgk), large, kind)
             elif name == "witness":
                 vr = bool(rnd.getrandbits(1))
